@@ -28,8 +28,8 @@ CLAIMS = {
          "Decides structural necessary conditions for ALL programs and graphs: (O1) AddCurrent/AddMark/Copy never store through their receiver and give the new traveler its own Marks map and Path slice (siblings derived from one traveler do not alias); (O2) the steps of the C01 alphabet write only into travelers whose current element and marks are private deep copies; (O3) every GraphStatement oneof member has an arm in the compiler and in the step inspector, each compile arm returns a processor or an error, every result type has an arm in Convert; (O4) limit/skip/range forward the received traveler unchanged, count each non-signal row once, and forward exactly when the documented predicate holds on every ordering of (row index, bounds). Does not decide row-multiset equality of the moving, filtering or projecting steps.",
          "Trusted: go/types; the ordering-domain evaluator interprets comparison expressions only.",
          "DESIGN.md §4 C01"),
- "C02": ("VTA call-graph reachability (go/ssa) from each statement kind's processor to the property reader, compared with the arms of the load-elision analysis (go/types AST)",
-         "Decides a structural necessary condition for ALL traversals: (L1) every statement kind whose processor can read element properties has an arm in PipelineStepOutputs that records the step as needed (otherwise its input is compiled with loadData=false and the embedded driver returns edges without properties); (L2) arms of kinds that take client paths resolve the path's namespace or mark every mark step; (L3) the pipeline state is computed from the statement list that is compiled (after the optimisers); (L4) kinds that consult StepLoadData advance the step id. Does not decide that the index-start rewrite preserves answers, count() = rows, or equivalence of filter spellings.",
+ "C02": ("VTA call-graph reachability (go/ssa) from each statement kind's processor to the property reader, compared with the arms of the load-elision analysis; taint of step-id strings into ordering comparisons; oneof-member coverage computed from the generated types (go/types AST)",
+         "Decides a structural necessary condition for ALL traversals: (L1) every statement kind whose processor can read element properties has an arm in PipelineStepOutputs that records the step as needed (otherwise its input is compiled with loadData=false and the embedded driver returns edges without properties); (L2) arms of kinds that take client paths resolve the path's namespace or mark every mark step; (L3) the pipeline state is computed from the statement list that is compiled (after the optimisers); (L4) kinds that consult StepLoadData advance the step id; (L5) a recorded requirement is never replaced by less; (L6) step ids, which are decimal strings, are never ordered as strings; (L7) a function of the analysis that looks into a oneof of a statement payload looks into every member that can carry a field path; (L8) the index-start rewrite reads the id list of the V() it replaces. Does not decide that the index-start rewrite preserves answers otherwise, count() = rows, or equivalence of filter spellings.",
          "Trusted: go/ssa + VTA call graph; jsonpath.GetDoc is the only way a processor reads properties.",
          "DESIGN.md §4 C02"),
  "C12": ("shape rule over every Processor.Process and embedded-driver lookup (go/types AST), private-copy analysis shared with C01, captured-variable lockset (go/cfg)",
